@@ -8,7 +8,7 @@ from .. import lifecycle as L
 from .. import program as P
 
 PROPS = ["C18"]
-OBL = ["without-signals", "ignored-signals", "error-class", "restored-at-return", "no-dead-end"]
+OBL = ["handler-alive", "without-signals", "ignored-signals", "error-class", "restored-at-return", "no-dead-end"]
 TRUSTED = [
     "model half: skeleton Model/Skel.v (signal handler goroutine: SIGINT -> interrupt, SIGTERM -> quit, ignore flag, handler absent without the option's consent) with guards computed from gen/Signals.v facts and gen/Lifecycle.v call lists; renderer size adoption Model/Renderer.r_window_size",
     "OS half (exercised, not proved): signal delivery, signal.Notify, TIOCGWINSZ / TIOCSWINSZ, SIGWINCH, termios: every scenario runs one Program in its own child process on a pseudo-terminal pair (/dev/ptmx) and signals are sent only after the handler goroutine had time to register (the script waits for the program to be idle first)",
@@ -54,8 +54,11 @@ def sig_scenario(i, sig, option, phase, pty):
         label = "exec:0"
     elif phase == "after-exec":
         script += [P.DO("send", msg=P.B("exec", cb=True)), P.DO("sleep", us=40000), P.W("idle")]
-    again = phase == "released-then-idle"
-    if again:
+    if phase == "swallowed-then-again":
+        o["filter"] = {"drop_first": {"b:interrupt": 1, "b:quit": 1}}
+    again = phase in ("released-then-idle", "swallowed-then-again")
+    swallowed = phase == "swallowed-then-again"
+    if again and not swallowed:
         script += [P.DO("go-send", msg=P.B("exec", pause=True, cb=True)), P.W("pause:exec:0")]
         label = "exec:0"
     script += [P.DO("signal", sig=sig), P.DO("sleep", us=60000)]
@@ -67,12 +70,12 @@ def sig_scenario(i, sig, option, phase, pty):
     ends = option == "handler" and phase != "released"
     if not ends:
         # the program must still be alive and working
-        script += [P.DO("send", msg=P.U(42)), P.W("idle"), P.DO("quit")]
+        script += [P.DO("send", msg=P.U(42)), P.W("idle"), P.DO("kill") if swallowed else P.DO("quit")]
     script.append(P.W("returned"))
     inp = {"kind": "pty", "w": 80, "h": 24} if pty else {"kind": "pipe"}
     s = P.scenario(i, script, opts=o, inp=inp, update=upd, isolate=True, watchdog_ms=4000)
     meta = {"kind": "signal", "sig": sig, "option": option, "phase": phase, "pty": pty, "ends": ends,
-            "want": ("interrupted" if sig == "int" else "nil") if ends else "nil"}
+            "want": ("interrupted" if sig == "int" else "nil") if ends else ("killed" if swallowed else "nil")}
     return s, meta
 
 
@@ -113,7 +116,7 @@ def gen(tier, rnd):
         x[0]["id"] = len(scs)
         scs.append(x[0])
         metas.append(x[1])
-    phases = ["idle", "update", "released", "after-exec", "released-then-idle"]
+    phases = ["idle", "update", "released", "after-exec", "released-then-idle", "swallowed-then-again"]
     for sig in ("int", "term"):
         for option in ("handler", "nosighandler", "nosignals"):
             for phase in phases:
@@ -157,7 +160,7 @@ def judge_one(m, r):
             probs.append(("signal-not-ignored", "SIG%s with %s at phase %s ended the program (a later message was not processed)" % (m["sig"].upper(), m["option"], m["phase"])))
         if m["ends"] and "u:42" in keys:
             probs.append(("signal-lost", "the signal did not end the program"))
-        if m["phase"] == "released-then-idle" and "u:41" not in keys:
+        if m["phase"] in ("released-then-idle", "swallowed-then-again") and "u:41" not in keys:
             probs.append(("signal-not-ignored", "a signal taken while the terminal was released ended the program"))
         fm = P.final_modes(P.mode_tokens(r["output"]))
         if fm != P.DEFAULT_MODES:
@@ -219,7 +222,7 @@ def run(res, tier, seed):
     res.oblige("Spec on real runs (pty): WindowSizeMsg with the true size at start-up, after every resize, on the WindowSize command; the last reported size is the true one; the renderer clips to it (%d runs)" % (len(metas) - nsig),
                not [b for b in bad if b[0]["kind"] == "size"], [(b[0], b[2]) for b in bad if b[0]["kind"] == "size"][:2])
     # the error classes through the Coq Spec as well
-    pairs = [({"causes": ["sigint" if m["sig"] == "int" else "sigterm"] if m["ends"] else ["quit"]}, r) for m, r in zip(metas, results)
+    pairs = [({"causes": ["sigint" if m["sig"] == "int" else "sigterm"] if m["ends"] else (["kill"] if m["phase"] == "swallowed-then-again" else ["quit"])}, r) for m, r in zip(metas, results)
              if m["kind"] == "signal" and not P.machinery_problem(r)]
     bad_ids = L.eval_outcomes(res, "C18", pairs)
     res.oblige("Spec on real runs (Coq: Spec.LifeSpec.outcome_ok) on the signal outcomes", not bad_ids, sorted(bad_ids)[:5])
@@ -237,7 +240,7 @@ def run(res, tier, seed):
     res.coverage["input_distribution"] = {
         "signal_runs": nsig, "size_runs": len(metas) - nsig,
         "signal_options": {o: sum(1 for m in metas if m.get("option") == o) for o in ("handler", "nosighandler", "nosignals")},
-        "signal_phases": {p: sum(1 for m in metas if m.get("phase") == p) for p in ("idle", "update", "released", "after-exec", "released-then-idle")},
+        "signal_phases": {p: sum(1 for m in metas if m.get("phase") == p) for p in ("idle", "update", "released", "after-exec", "released-then-idle", "swallowed-then-again")},
         "size_modes": {p: sum(1 for m in metas if m.get("mode") == p) for p in ("idle", "busy", "released", "command")},
         "resizes": sum(len(m["sizes"]) - 1 for m in metas if m["kind"] == "size"),
     }
